@@ -3,6 +3,7 @@ import SJ.Props.C02Map
 import SJ.Props.C06Int
 import SJ.Props.C01Ap
 import SJ.Props.C01Rv
+import SJ.Props.C02Floats
 #print axioms SJ.Props.C02Map.c02_bytesLt_strict_total_order
 #print axioms SJ.Props.C02Map.c02_mkObj_eq_objectOf
 #print axioms SJ.Props.C02Map.c02_canonM_eq_canon
@@ -26,3 +27,6 @@ import SJ.Props.C01Rv
 #print axioms SJ.Props.C01Ap.c01_ap_token_language
 #print axioms SJ.Props.C01Rv.c02_rv_value_is_canon_tokenfree
 #print axioms SJ.Props.C01Rv.c01_rv_token_language
+#print axioms SJ.Props.C02Floats.c02_floats_nearest_fr
+#print axioms SJ.Props.C02Floats.c02_float_document_nearest_fr
+#print axioms SJ.Props.C02Floats.c02_floats_5ulp_default
